@@ -493,7 +493,7 @@ pub fn check_log(prog: &AProg, log: &ExecLog, term: &Term) -> Vec<(String, Strin
     out
 }
 
-fn one_prog(prog: &AProg, k: usize, seed: u64, iters: usize, acc: &mut Acc) {
+pub fn one_prog(prog: &AProg, k: usize, seed: u64, iters: usize, acc: &mut Acc) {
     let wit = |extra: serde_json::Value| json!({"scheduler": sched_name(k), "sched_seed": seed, "program": format!("{:?}", prog.tasks), "detail": extra});
     let mut left = iters;
     let mut round = 0;
